@@ -23,7 +23,8 @@ RULE = ("JSON values built from an adversarial alphabet (quotes, backslashes, \\
         "NEL, U+2028, blanks, digits, e E . + - _, inf/nan, non-ASCII incl. non-ASCII digits and astral characters), "
         "numerals drawn from the documented grammar and near misses of it, boundary integers (+-2^63), finite floats "
         "from random bit patterns, nested lists/maps with special keys; each value is encoded, compiled and evaluated "
-        "by the real code (directly, as map key, inside a list, and as the return / locals of a real ValueFunction); "
+        "by the real code (directly, as map key, inside a list, as the return / locals of a real ValueFunction, and as "
+        "the resource of a real ResourceFunction whose POST body is read off an in-memory API double); "
         "encoder outputs plus random mutations of them are lexed/parsed/evaluated by real celpy and by the model. "
         "A case is non-trivial when it contains a character that needs quoting, a numeral look-alike or a container; "
         "distinct by content")
@@ -41,7 +42,12 @@ ASSUMPTIONS = [
 TRUSTED = ["Python restatement of norm() and of the comparison in the oracle (type-exact, except that a numeral "
            "string may arrive as an int or float of equal value)"]
 
-RF_AVAILABLE = False   # hook: POST body of a ResourceFunction needs harness/cluster.py (API double), not there yet
+try:                    # the ResourceFunction / POST-body route needs the API double harness/cluster.py
+    import cluster as _cluster  # noqa: F401
+    import drivers as _drivers  # noqa: F401
+    RF_AVAILABLE = True
+except Exception:       # pragma: no cover
+    RF_AVAILABLE = False
 
 NUMERAL = re.compile(r"-?[0-9]+(\.[0-9]+)?([eE][+-]?[0-9]+)?")      # the documented grammar, restated by hand
 INT_NUMERAL = re.compile(r"-?[0-9]+")
@@ -174,6 +180,35 @@ def real_value_function(block, v):
     finally:
         if hasattr(registry, "_reset_registries"):
             registry._reset_registries()
+
+
+def real_resource_function_post(v):
+    """A real ResourceFunction whose `resource` holds the literal under spec.v, reconciled against the in-memory
+    API double: returns ("ok", the value under spec.v in the POSTed body) or a failure class."""
+    import drivers
+    drivers.reset_all()
+    spec = {"apiConfig": {"apiVersion": "example.dev/v1", "kind": "Widget", "plural": "widgets", "name": "w",
+                          "namespace": "default", "owned": False},
+            "resource": {"spec": {"v": v}},
+            "create": {"delay": 1}}
+    try:
+        p = drivers.run_async(drivers.prepare_rf("rf-c11", spec))
+        fn, err = drivers.unwrap_prepared(p)
+        if fn is None:
+            return ("prepfail", None)
+        cl = drivers.Cluster()
+        drivers.run_async(drivers.reconcile_rf(fn, {}, cl))
+        posts = [c for c in cl.calls if c["method"] == "POST"]
+        if not posts:
+            return ("evalfail", None)
+        body = posts[0]["body"]
+        if not isinstance(body, dict) or not isinstance(body.get("spec"), dict) or set(body["spec"]) != {"v"}:
+            return ("shape", body)
+        return ("ok", body["spec"]["v"])
+    except Exception as e:
+        return ("raises", type(e).__name__)
+    finally:
+        drivers.reset_all()
 
 
 # ---- the property, restated (independent of the model) ---------------------------------------------
@@ -542,7 +577,7 @@ def find_culprit(want, got):
     return ("value", want, r[1])
 
 
-ROUTES = ("direct", "vf-return", "vf-locals")
+ROUTES = ("direct", "vf-return", "vf-locals") + (("rf-post",) if RF_AVAILABLE else ())
 
 
 def describe(v):
@@ -564,6 +599,8 @@ def deliver(route, v):
         return real_value_function("return", v)
     if route == "vf-locals":
         return real_value_function("locals", v)
+    if route == "rf-post":
+        return real_resource_function_post(v)
     raise ValueError(route)
 
 
@@ -787,10 +824,6 @@ def run(ctx: Ctx):
             ctx.corr_errors.append("in_fragment: " + err)
         ctx.count("corr:eval:skipped-outside-model-fragment", len(oof))
         ctx.count("corr:eval:judged", len(ev_terms) - len(oof))
-        # the encoder's own outputs must never be skipped (for values meeting the hypotheses)
-        n_img = 0
-        for i, c in enumerate(ev_cases[:len(enc_cases) + 50]):
-            pass
         ctx.notes.append({"celit_fragment": {"texts": len(ev_terms), "skipped": len(oof)}})
 
 
